@@ -515,6 +515,20 @@ func SortSliceModel(x any, less func(i, j int) bool) {
 	}
 }
 
+// PoolGetModel replaces (*sync.Pool).Get under the executor: the item put last, else New().
+func PoolGetModel(p *sync.Pool) any {
+	if v := PoolTake(p); v != nil {
+		return v
+	}
+	if p.New != nil {
+		return p.New()
+	}
+	return nil
+}
+
+// PoolTake is an executor intrinsic (natively the pool itself).
+func PoolTake(p *sync.Pool) any { return p.Get() }
+
 func LenAny(x any) int { return reflect.ValueOf(x).Len() }
 
 func SwapAny(x any, i, j int) { reflect.Swapper(x)(i, j) }
